@@ -475,7 +475,7 @@ def histories_for(ctx):
     # a fifth component = the actions "new listener" / "new emitter" are in the alphabet as well
     scopes = [((1, 1, 1, 1), 6), ((1, 1, 2, 2), 5), ((2, 2, 2, 2), 3), ((3, 2, 3, 2), 3), ((1, 1, 1, 1, True), 5),
               ((2, 1, 2, 1, True), 4)] if quick else \
-             [((1, 1, 1, 1), 7), ((1, 1, 2, 2), 6), ((2, 2, 2, 2), 4), ((3, 2, 3, 2), 4), ((1, 1, 1, 1, True), 7),
+             [((1, 1, 1, 1), 7), ((1, 1, 2, 2), 6), ((2, 2, 2, 2), 4), ((3, 2, 3, 2), 4), ((1, 1, 1, 1, True), 6),
               ((2, 1, 2, 1, True), 5)]
     ex = []
     desc = []
